@@ -255,7 +255,9 @@ func C10() int {
 			}
 		},
 		Run: c10RunMut,
-		Key: func(j *c10MutJob) string { return fmt.Sprintf("%s|%v|%s|%d|%d", j.Kind, j.Write, j.Mode, j.Pos, j.Value) },
+		Key: func(j *c10MutJob) string {
+			return fmt.Sprintf("%s|%v|%s|%d|%d", j.Kind, j.Write, j.Mode, j.Pos, j.Value)
+		},
 		Nontrivial: func(j *c10MutJob) bool {
 			r := c10Region(j.Kind, j.Pos, j.fileB)
 			return r == "payload" || r == "checksum" || r == "length"
